@@ -381,6 +381,7 @@ func (f *simFactory) unassign(site string, eniID string, ips []netip.Addr) error
 			fp := "unassign-in-use"
 			if c.recycled(ip.String()) {
 				fp += "@recycled-address"
+				w.k1Victim[pod] = true // what this pod sees from here on follows from known finding K1
 			}
 			w.run.Violate("C06", "dispose", fp, "%s of %s on %s while pod %s holds it", site, ip, eniID, pod)
 		}
